@@ -103,20 +103,36 @@ SecMulti(sec) == sec \in {"scope", "top"}
 SecFree(sec) == sec = "files"
 NamesOf(N, S) == {N.items[i].name : i \in {j \in S : N.items[j].named}}
 \* names the language (or the writer) reserves in a section: `object` is PDDL's predefined root type and
-\* may be used without being declared; `total-cost` is the function the writer itself declares for costs
+\* may be used without being declared (see RootReserved below for when a user type may have that name);
+\* `total-cost` is the function the writer itself declares for costs
 Builtin(N, s) == IF N.lang # "pddl" THEN {}
                  ELSE IF N.spaces[s].sec = "types" THEN {OBJECT}
                  ELSE IF N.spaces[s].sec = "fluents" THEN {TOTALCOST} ELSE {}
 
 \* namespaces all of whose elements are always emitted (the PDDL writer omits actions whose preconditions
 \* are trivially false, and simplification may remove a quantifier)
+\* The reserved word of the PDDL type namespace.  `object` is the predefined root type: every type is a
+\* sub-type of it and every object belongs to it.  A user type may therefore be WRITTEN as `object` (and then be
+\* used without a declaration) only when it is the only user type of the problem -- typing is then flat and the
+\* user type coincides with the root type.  As soon as the problem has a second user type (two unrelated types,
+\* or a type hierarchy, which needs at least two types) the name `object` -- under PDDL's case rule, so also the
+\* lowered form of `Object`, `OBJECT` ... -- is not available for a user type: it would make that type the
+\* father of every other type, or be declared as `object ... - object`.
+TypeItems(N) == {j \in DOMAIN N.items : N.items[j].kind = "type"}
+RootReserved(N) == N.lang = "pddl" /\ Cardinality(TypeItems(N)) > 1
+RootTaken(N, j) == RootReserved(N) /\ N.items[j].kind = "type" /\ Key(N.lang, N.items[j].name) = OBJECT
+\* the same on the emitted text: with several user types, (:types ...) must not declare `object` itself, and a
+\* user type whose name is `object` cannot be "used undeclared"
+RootDeclared(N, s, n) == RootReserved(N) /\ N.spaces[s].sec = "types" /\ Key(N.lang, n) = OBJECT
+Undeclared(N, s) == IF RootReserved(N) /\ N.spaces[s].sec = "types" THEN {} ELSE Builtin(N, s)
+
 SecMust(sec) == sec \in {"types", "objects", "fluents", "signature", "global", "vars"}
 MustItem(N, i) == \E k \in DOMAIN N.spaces : SecMust(N.spaces[k].sec) /\ i \in Rng(N.spaces[k].items)
 Named(N) == {<<"Named", i, Det(N, i)>> : i \in {j \in DOMAIN N.items : N.done /\ MustItem(N, j) /\ ~N.items[j].named}}
 Valid(N) == {<<"Valid", i, Det(N, i)>> : i \in {j \in DOMAIN N.items :
                 N.items[j].named /\ ~ValidName(N.lang, IsVar(N.items[j]), N.items[j].name)}}
 NotKeyword(K, N) == {<<"NotKeyword", i, Det(N, i)>> : i \in {j \in DOMAIN N.items :
-                N.items[j].named /\ Key(N.lang, N.items[j].name) \in K}}
+                N.items[j].named /\ (Key(N.lang, N.items[j].name) \in K \/ RootTaken(N, j))}}
 Distinct(N) == {<<"Distinct", j, Det(N, j)>> : j \in {b \in DOMAIN N.items :
                 \E k \in DOMAIN N.spaces : \E a \in Rng(N.spaces[k].items) :
                    /\ b \in Rng(N.spaces[k].items) /\ a < b
@@ -129,7 +145,8 @@ InverseLk(N) == {<<"Inverse", i, Det(N, i)>> : i \in {j \in DOMAIN N.items :
 TextValid(K, N) == {<<"TextValid", k, <<N.spaces[k].sec>> >> : k \in {s \in DOMAIN N.text :
                 \E q \in DOMAIN N.text[s].names :
                    LET n == N.text[s].names[q]
-                   IN n \notin Builtin(N, s) /\ (~ValidName(N.lang, SecVar(N.spaces[s].sec), n) \/ Key(N.lang, n) \in K)}}
+                   IN \/ RootDeclared(N, s, n)
+                      \/ n \notin Builtin(N, s) /\ (~ValidName(N.lang, SecVar(N.spaces[s].sec), n) \/ Key(N.lang, n) \in K)}}
 DupKeys(N, s) == {Key(N.lang, N.text[s].names[q]) : q \in {r \in DOMAIN N.text[s].names :
                     \E t \in DOMAIN N.text[s].names : t < r /\ Key(N.lang, N.text[s].names[t]) = Key(N.lang, N.text[s].names[r])}}
 TextDistinct(N) == {<<"TextDistinct", k,
@@ -140,7 +157,7 @@ TextAgrees(N) == {<<"TextAgrees", k, <<N.spaces[k].sec>> >> : k \in {s \in DOMAI
                 /\ LET H == Rng(N.text[s].names)
                        S == Rng(N.spaces[s].items)
                    IN ~ /\ (H \ Builtin(N, s)) \subseteq NamesOf(N, S)
-                        /\ ((IF SecMust(N.spaces[s].sec) THEN NamesOf(N, S) ELSE {}) \ Builtin(N, s)) \subseteq H}}
+                        /\ ((IF SecMust(N.spaces[s].sec) THEN NamesOf(N, S) ELSE {}) \ Undeclared(N, s)) \subseteq H}}
 \* tback[r] = [s (section), n, ok, rn]
 TextInverse(N) == {<<"TextInverse", q, <<N.spaces[N.tback[q].s].sec>> >> : q \in {r \in DOMAIN N.tback :
                 /\ N.tback[r].n \notin Builtin(N, N.tback[r].s)
